@@ -10,7 +10,7 @@ OPTSETS = [[], ['-U'], ['-R'], ['-U', '-R']]
 def reset(opts, slot=0, obs=None, tag=None):
     o = list(QUIET) + list(opts)
     if obs is not None:
-        o += ['-O', obs]
+        o += ['--observer-coord=' + obs]
     c = {'c': 'reset', 'opts': o, 'slot': slot}
     if tag is not None:
         c['tag'] = tag
